@@ -171,6 +171,59 @@ Theorem kill_after_lost_post_copy_refuted :
 Proof. exact MachineProofs.kill_after_lost_post_copy_refuted. Qed.
 Print Assumptions kill_after_lost_post_copy_refuted.
 
+(** * /repo HEAD with commit 20b75a5: the process may die at ANY instant
+
+    [kill_ok] is no longer needed: with the copy after a FULL/RESTART checkpoint run as a
+    session that has not reached the end of the WAL ([LsPostSync]), a lost cursor never
+    sits under level-0 files carrying the live salts ([lost_never_looks_continuous]), so
+    whatever instant the process dies at, the next process finds other salts in its last
+    file and the fresh-session rule snapshots.  F20 was reproduced on the implementation
+    first (a kill injected at the trace point after that copy:
+    [OPEN S W W SW LR+ INJX=5 INJP=pt.ckpt.postcopy KILLP=pt.ckpt.postcopied CK-FULL OPEN S SW])
+    and the refutation above stays as the theorem about the earlier copy ([LsSync] in that
+    control state).  [steps_head]: the run uses the steps of /repo HEAD; no condition on
+    the interleaving, on where kills happen, or on which calls fail where. *)
+From LS Require Db.MachineFaults.
+
+Theorem acked_sync_restores_sessions_any_kill :
+  forall (data : Type) (zero : data) (lock : N)
+         (s0 : Machine.state data) (ls : list (Machine.label data)) (s : Machine.state data),
+  Machine.init_ok data zero lock s0 ->
+  Machine.run data lock true true true true true s0 ls = Some s ->
+  Machine.steps_ok data lock true true true true true s0 ls ->
+  Machine.steps_head data lock true true true true true s0 ls ->
+  forall n im b, In (n, im, b) (Machine.acks data s) ->
+  Image.img_eq data (Image.restore data zero lock (firstn n (Machine.l0 data s))) im.
+Proof. exact MachineFaults.acked_sync_restores_faults. Qed.
+Print Assumptions acked_sync_restores_sessions_any_kill.
+
+Theorem lost_never_looks_continuous :
+  forall (data : Type) (zero : data) (lock : N)
+         (s0 : Machine.state data) (ls : list (Machine.label data)) (s : Machine.state data),
+  Machine.init_ok data zero lock s0 ->
+  Machine.run data lock true true true true true s0 ls = Some s ->
+  Machine.steps_ok data lock true true true true true s0 ls ->
+  Machine.steps_head data lock true true true true true s0 ls ->
+  Machine.cur data s = Machine.Lost ->
+  Machine.l0 data s = [] \/ (Machine.cgen data s < Machine.gen data s)%nat.
+Proof. exact MachineFaults.lost_never_looks_continuous. Qed.
+Print Assumptions lost_never_looks_continuous.
+
+(** non-vacuity: the F20 history with the repaired copy — kill included — satisfies the
+    hypotheses and restores the source *)
+Example kill_history_restores :
+  option_map (fun s => (length (Machine.l0 N s), Machine.cur N s,
+                        map (fun a => (fst (fst a), snd a)) (Machine.acks N s),
+                        map (fst (Image.restore N 0%N 1000%N (Machine.l0 N s))) [1; 2]%N,
+                        map (fst (Machine.committed N s)) [1; 2]%N))
+             (Machine.run N 1000%N true true true true true MachineProofs.ex_init MachineFaults.kill_fixed_steps)
+  = Some (2%nat, Machine.AtLive 1%nat, [(2%nat, true); (1%nat, true)], [99; 55]%N, [99; 55]%N)
+  /\ Machine.steps_ok N 1000%N true true true true true MachineProofs.ex_init MachineFaults.kill_fixed_steps
+  /\ Machine.steps_head N 1000%N true true true true true MachineProofs.ex_init MachineFaults.kill_fixed_steps.
+Proof.
+  split; [vm_compute; reflexivity|]. split; [exact MachineFaults.kill_fixed_ok|exact MachineFaults.kill_fixed_head].
+Qed.
+
 (** non-vacuity: the F2 history under /repo HEAD satisfies the hypotheses and
     restores the source ([MachineProofs.sess_run]) *)
 Example sessions_example :
